@@ -152,6 +152,20 @@ def brt_externsheet_payload(xtis, cxti=None):
         b"".join(struct.pack("<Iii", s, f, l) for (s, f, l) in xtis)
 
 
+def sheet_text(name):
+    """a sheet name as formula text writes it in front of '!' (formula grammar, sheet-name): bare
+    when it is a word — first character a letter, '_' or non-ASCII, then the same, digits or '.' —
+    else between apostrophes with its apostrophes doubled.  Independent reading of the grammar
+    (cross-checked against Coq's Ptg.sheet_text by props/c14.py)."""
+    def start(ch):
+        return ch.isascii() and (ch.isalpha() or ch == "_") or not ch.isascii()
+    def inner(ch):
+        return start(ch) or (ch.isascii() and ch.isdigit()) or ch == "."
+    if name and start(name[0]) and all(inner(ch) for ch in name[1:]):
+        return name
+    return "'" + name.replace("'", "''") + "'"
+
+
 def xlsb_resolve_xti(first, sheets):
     """independent reading of MS-XLSB 2.5.172 Xti as calamine reports it: the name of the first
     sheet of the span; -2 = workbook-level, -1 = deleted sheet"""
@@ -160,7 +174,7 @@ def xlsb_resolve_xti(first, sheets):
     if first == -1:
         return "#InvalidWorkSheet"
     if 0 <= first < len(sheets):
-        return sheets[first]
+        return sheet_text(sheets[first])
     return "#Unknown"
 
 
